@@ -125,6 +125,28 @@ pub fn generate(thorough: bool, seed: u64, out: &mut dyn Write) {
         writeln!(out, "{} {} {}", op, hex(&k2), hex(&m)).unwrap();
         writeln!(out, "{} {} {}", op, hex(&k1), hex(&m)).unwrap();
     }
+    // (2c) several calls on ONE handle: long / short, aligned / unaligned messages and ciphertexts in
+    // every order — a call must not see anything an earlier call on the handle left behind
+    let seqs = if thorough { 3000 } else { 150 };
+    for i in 0..seqs {
+        let key = key_of(&mut rng, 8 + (i % 5) * 3);
+        let n = 2 + rng.below(4) as usize;
+        let mut items = vec![];
+        for j in 0..n {
+            let l = match rng.below(6) {
+                0 => 0,
+                1 => 1 + rng.below(7) as usize,
+                2 => 8 * (1 + rng.below(6) as usize),
+                3 => 33 + rng.below(40) as usize,
+                _ => msg_len(&mut rng, false),
+            };
+            // lengths shrink as often as they grow; all bytes non-zero in half of the messages
+            let mut m = msg_of(&mut rng, l);
+            if (i + j) % 2 == 0 { for b in m.iter_mut() { if *b == 0 { *b = 0xa5; } } }
+            items.push(format!("{}{}", if rng.chance(2, 3) { "e" } else { "d" }, hex(&m)));
+        }
+        writeln!(out, "seq {} {}", hex(&key), items.join(",")).unwrap();
+    }
     // (3) only the first 8 key bytes count: one 8-byte key and many extensions, same message
     let groups = if thorough { 400 } else { 40 };
     for _ in 0..groups {
@@ -176,9 +198,22 @@ pub fn run(case: &str, input: &str) -> String {
         return "bad-case".into();
     }
     let Some(key) = unhex(f[1]) else { return "bad-case".into() };
-    let Some(data) = unhex(f[2]) else { return "bad-case".into() };
+    let data = if f[0] == "seq" { vec![] } else { let Some(d) = unhex(f[2]) else { return "bad-case".into() }; d };
     if key.len() < 8 {
         return "bad-case".into();
+    }
+    if f[0] == "seq" && f.len() == 3 {
+        // one handle, several calls (f[2] was not hex: `data` is unused here)
+        let items: Vec<String> = f[2].split(',').map(|x| x.to_string()).collect();
+        return guarded(move || {
+            let b = Blowfish::new(&key);
+            let mut outs = vec![];
+            for it in &items {
+                let Some(d) = unhex(&it[1..]) else { return "bad-case".into() };
+                outs.push(if it.starts_with('e') { opt_hex(b.encrypt(&d)) } else { opt_hex(b.decrypt(&d)) });
+            }
+            outs.join(",")
+        });
     }
     match (f[0], f.len()) {
         ("enc", 3) => guarded(move || opt_hex(Blowfish::new(&key).encrypt(&data))),
